@@ -131,7 +131,9 @@ def rule_generic(rep, pdoc):
             for (bp, cp), reason in POINT_ALLOW.items():
                 if b["path"] == bp and c["callee"].startswith(cp):
                     allowed = reason
-            if b["path"] == "sinc::sinc" and "PartialEq" in c["callee"]:
+            # positive control: the scan sees sample-typed comparisons at all (sinc::sinc has the one the tree is known to contain; if that
+            # function is rewritten, whatever comparison replaces it is itself reported below as an unreviewed point)
+            if b["path"] == "sinc::sinc":
                 found_control = True
             rep.ob(R, "%s -> %s" % (b["path"], c["callee"][:70]), allowed is not None,
                    "declassification point: %s at %s%s" % (why, c["span"], (" [reviewed: %s]" % allowed) if allowed else " — a sample-dependent bool/integer can steer control or frame counts differently for f32 and f64"),
@@ -200,6 +202,38 @@ def rule_coerce(rep):
     return n
 
 
+def rule_twin_impls(rep):
+    """`impl Sample for f32` and `impl Sample for f64` must be the same text up to the substitution f32 <-> f64: same associated constants
+    (the same std constant, or the same literal), same method bodies.  A constant that is PI for one type and TAU for the other, or a
+    tolerance that differs per type, makes the two instantiations compute different functions of their input."""
+    facts = rep.ctx.facts
+    R = "R-C17-twin-impls"
+    ims = {im["self_ty"]: im for rel, im in facts.impls if im.get("trait_name") == "Sample"}
+    if set(ims) != {"f32", "f64"}:
+        raise ir.AnchorMissing("impl Sample for f32 / f64")
+
+    def canon(txt, ty):
+        return re.sub(r"\b%s\b" % ty, "FLOAT", txt)
+    a, b = ims["f32"], ims["f64"]
+    ca = {o["name"]: o for o in a.get("others", []) if o.get("k") == "const"}
+    cb = {o["name"]: o for o in b.get("others", []) if o.get("k") == "const"}
+    rep.ob(R, "consts/same-set", set(ca) == set(cb), "associated constants: f32 %s, f64 %s" % (sorted(ca), sorted(cb)), "src/sample.rs")
+    for n in sorted(set(ca) & set(cb)):
+        ta, tb = canon(ir.show(ca[n]["init"]), "f32"), canon(ir.show(cb[n]["init"]), "f64")
+        same = ta == tb
+        if not same and ca[n]["init"].get("k") == "lit" and cb[n]["init"].get("k") == "lit":
+            # literals: equal as decimal text up to the precision suffix (1.0e-8 vs 1.0e-2 is a different constant; 3.14f32 vs 3.14f64 is not)
+            same = re.sub(r"_?f(32|64)$", "", ca[n]["init"]["v"]) == re.sub(r"_?f(32|64)$", "", cb[n]["init"]["v"])
+        rep.ob(R, "const/%s" % n, same, "Sample::%s is `%s` for f32 and `%s` for f64: the two instantiations must use the same constant" % (n, ir.show(ca[n]["init"]), ir.show(cb[n]["init"])),
+               "src/sample.rs:%s" % ca[n]["init"].get("ln", a.get("ln")))
+    fa = {f["name"]: f for f in a["fns"]}
+    fb = {f["name"]: f for f in b["fns"]}
+    rep.ob(R, "fns/same-set", set(fa) == set(fb), "methods: f32 %s, f64 %s" % (sorted(fa), sorted(fb)), "src/sample.rs")
+    for n in sorted(set(fa) & set(fb)):
+        ta, tb = canon(ir.show(fa[n]["body"]), "f32"), canon(ir.show(fb[n]["body"]), "f64")
+        rep.ob(R, "fn/%s" % n, ta == tb, "Sample::%s: f32 body `%s`, f64 body `%s` (must be identical up to the type name)" % (n, ir.show(fa[n]["body"])[:60], ir.show(fb[n]["body"])[:60]), ir.loc(fa[n]))
+
+
 # loop-carried accumulations in the sample type inside the table-building code: each one is a place where f32 rounding compounds over
 # thousands of points (f64 hides it).  The reviewed set is what the tree has today; a new accumulator is reported.
 REVIEWED_ACCUMULATORS = {
@@ -254,6 +288,9 @@ def run(rep):
     rep.guarded("R-C17-concrete", rule_concrete, pdoc)
     rep.guarded("R-C17-coerce", rule_coerce)
     # the value clause (f32 output = f64 output to within rounding): structural necessary conditions only
+    rep.guarded("R-C17-twin-impls", rule_twin_impls)
+    rep.floor("R-C17-twin-impls", 5)
+    rep.clause("R-C17-twin-impls", "`impl Sample for f32` and `impl Sample for f64` are the same text up to the type name: same associated constants, same method bodies")
     rep.guarded("R-C17-accumulators", rule_accumulators)
     rep.floor("R-C17-accumulators", 7)
     rep.clause("R-C17-accumulators", "the table-building code (make_sincs, sinc, the window functions) computes every point in closed form from its integer index: no loop-carried "
